@@ -19,6 +19,8 @@ with C.Lock():
     print("\n".join(msgs5))
     ok6, msgs6 = C.regen_limits()
     print("\n".join(msgs6))
+    ok7, msgs7 = C.regen_wire()
+    print("\n".join(msgs7))
     ok2, out, errors, dt = C.lake_build(["Cuckoo", "cuckoo-driver"])
     print("lake build: %s in %.0fs" % ("ok" if ok2 else "FAILED", dt))
     if not ok2:
